@@ -120,6 +120,9 @@ struct Side {
     /// a datagram was handed to this connection only because it ends in a reset token that ANOTHER, already forgotten
     /// connection of the peer endpoint had issued too (same CID value, hence same token): what happened
     shared_token_hit: Option<String>,
+    /// largest `retire_prior_to` this connection has announced for its own CIDs (only a CID-lifetime expiry,
+    /// Timer::PushNewCid, advances it): discriminates the recorded finding routing-rotation-exceeds-peer-cid-limit
+    rpt_seen: u64,
 }
 
 #[derive(Clone, Copy, Debug, PartialEq, Eq)]
@@ -402,6 +405,7 @@ impl St {
             routed: 0,
             ghost,
             shared_token_hit: None,
+            rpt_seen: 0,
         });
         let i = self.sides.len() - 1;
         self.occ.insert((node, ch), i);
@@ -597,6 +601,7 @@ impl St {
             if let Some(t) = cv.peer_reset_token {
                 self.sides[i].peer_tokens.insert(t);
             }
+            self.sides[i].rpt_seen = self.sides[i].rpt_seen.max(cv.retire_prior_to);
             for (_, _, t) in &cv.rem_cids {
                 if let Some(t) = t {
                     self.sides[i].peer_tokens.insert(*t);
@@ -650,7 +655,15 @@ impl St {
                     // RFC 9000 5.1.1: "An endpoint MUST NOT provide more connection IDs than the peer's limit": between
                     // honest peers this error means the issuer over-issued (recorded finding: a CID-lifetime expiry and a
                     // RETIRE_CONNECTION_ID handled in one batch both claim the same free slot)
-                    sim.fail("routing-rotation-exceeds-peer-cid-limit", format!("connection #{uid} (node {node} handle {ch}) ended with {reason}: its peer was given more connection IDs than its active_connection_id_limit"));
+                    // The recorded finding is a RACE of the rotation machinery: it needs a CID lifetime on the issuing endpoint
+                    // and an expiry that has already rotated this connection's CIDs (retire_prior_to > 0, which nothing but
+                    // Timer::PushNewCid advances).  An over-issue by an endpoint that never rotates, or before the first
+                    // rotation, has another cause and is not the recorded finding.
+                    let issuers: Vec<usize> = if node == SERVER { vec![self.lconns[uid - 1].cside] } else { self.lconns[uid - 1].ssides.clone() };
+                    let rotating = issuers.iter().any(|p| self.cfgs[self.sides[*p].node].lifetime.is_some() && self.sides[*p].rpt_seen > 0);
+                    let facts: Vec<String> = issuers.iter().map(|p| format!("issuer node {} cid_lifetime {:?} retire_prior_to announced {}", self.sides[*p].node, self.cfgs[self.sides[*p].node].lifetime, self.sides[*p].rpt_seen)).collect();
+                    let key = if rotating { "routing-rotation-exceeds-peer-cid-limit" } else { "routing-rotation-exceeds-peer-cid-limit-other-cause" };
+                    sim.fail(key, format!("connection #{uid} (node {node} handle {ch}) ended with {reason}: its peer was given more connection IDs than its active_connection_id_limit ({})", facts.join("; ")));
                 } else if protected {
                     let others: Vec<String> = self.lconns.iter().filter(|o| o.uid != uid && (o.closed || o.finished)).map(|o| format!("#{}", o.uid)).collect();
                     sim.fail("isolation-lost", format!("connection #{uid} (node {node} handle {ch}) reported {reason} although nobody closed, refused or disturbed it (connections closed/drained so far: {})", others.join(" ")));
@@ -1090,8 +1103,18 @@ impl St {
                         // recorded finding (audit D6): the table is keyed by (remote, token) without owner; a peer that reuses
                         // CID values (1-2 byte CIDs) hands the same token to two connections of this endpoint
                         let other = v.reset_tokens.iter().find(|(rr, tt, _)| rr == r && tt == t).map(|x| x.2);
+                        // The recorded cause: the peer gave the SAME token to two connections of this endpoint (CID values
+                        // reused / zero-length CIDs).  Checked here, not assumed: the table routes the token to another handle,
+                        // another open connection holds the same (remote, token), or another connection of this node (open or
+                        // forgotten) was given that token earlier.  An entry that is missing although nobody else ever held
+                        // the token has another cause.
+                        let me = self.occ.get(&(node, *h)).copied();
+                        let shared = other.is_some()
+                            || metas.iter().any(|(h2, m2)| *h2 != *h && m2.reset_token.as_ref().is_some_and(|(r2, t2)| r2 == r && t2 == t))
+                            || self.sides.iter().enumerate().any(|(i, o)| Some(i) != me && o.node == node && o.peer_tokens.contains(t));
+                        let key = if shared { "routing-reset-token-entry-lost" } else { "routing-reset-token-entry-lost-other-cause" };
                         if self.views_reported.insert(format!("tok {node} {h} {}", hexs(t))) {
-                            sim.fail("routing-reset-token-entry-lost", format!("node {node} step {}: handle {h} accepts stateless resets with token {} from {r}, but the reset-token table {}", sim.steps, hexs(t), other.map_or("has no entry for it (removed together with another connection that held the same token)".to_string(), |o| format!("routes that token to handle {o} (the same token was given to both connections)"))));
+                            sim.fail(key, format!("node {node} step {}: handle {h} accepts stateless resets with token {} from {r}, but the reset-token table {}", sim.steps, hexs(t), other.map_or(if shared { "has no entry for it (removed together with another connection that held the same token)".to_string() } else { "has no entry for it, and no other connection of this endpoint was ever given that token".to_string() }, |o| format!("routes that token to handle {o} (the same token was given to both connections)"))));
                         }
                     }
                 }
